@@ -312,3 +312,15 @@ def replay(failure):
 def rerun(doc):
     m = re.match(r"from t \| select \{x = '(.*)'\}$", doc["input"], re.S)
     return _try(m.group(1)) if m else {"failing": False}
+
+
+SWEEP_DOC = "string literals with every escape form (valid, truncated, over-long) compiled by the real prqlc with a 60 s timeout; emitted SQL literal compared with a reference decoder"
+
+
+def sweep():
+    out = []
+    for lit in CANDIDATES:
+        r = _try(lit)
+        r["obligation"] = "lex_strings.parse_escape_sequence.decreases" if "terminates" in str(r.get("expected")) else "lex_strings.ES2a"
+        out.append(r)
+    return out
